@@ -4,7 +4,7 @@
 //! numbers; TLC's integers are 32 bit. The specification therefore works with small abstract
 //! token types and the harness maps them, at the API boundary of every scanning-level leg, to
 //! concrete ones of which most do not fit into 16 or 32 bits: an abstract type below 8 is itself,
-//! any other is moved up by 2^40. What the code reports is mapped back; a reported type that is not
+//! 9 is usize::MAX, any other is moved up by 2^40. What the code reports is mapped back; a reported type that is not
 //! the image of an abstract one (e.g. a truncated one) maps to a value no abstract type has, so it
 //! cannot be mistaken for the expected type.
 
@@ -22,6 +22,18 @@ pub fn conc(t: usize) -> usize {
     if let Some(p) = EXTRA.lock().unwrap().iter().find(|p| p.0 == t) {
         return p.1;
     }
+    if t < 8 {
+        t
+    } else if t == 9 {
+        usize::MAX
+    } else {
+        t + SHIFT
+    }
+}
+
+/// the order-preserving variant (serde check: the specification lists transitions in the order of
+/// the abstract token types)
+pub fn conc_mono(t: usize) -> usize {
     if t < 8 { t } else { t + SHIFT }
 }
 
@@ -31,7 +43,9 @@ pub fn abs(x: usize) -> u64 {
     }
     if x < 8 {
         x as u64
-    } else if x >= SHIFT + 8 && x - SHIFT < (1 << 30) {
+    } else if x == usize::MAX {
+        9
+    } else if x >= SHIFT + 8 && x - SHIFT < (1 << 31) {
         (x - SHIFT) as u64
     } else {
         1_900_000_000 + (x % 1000) as u64
